@@ -810,3 +810,71 @@ func sortedKeys[M ~map[string]V, V any](m M) []string {
 	sort.Strings(ks)
 	return ks
 }
+
+// fullIndexLoop reports whether idx is the induction variable of a loop that visits every index of
+// seq from 0 in steps of 1 up to len(seq)-1: the `for i := range seq` form (phi(-1, i)+1, tested
+// against len(seq)) or the classic `for i := 0; i < len(seq); i++` form (phi(0, i+1)).
+func fullIndexLoop(idx ssa.Value, seq ssa.Value) bool {
+	isLenOfSeq := func(v ssa.Value) bool {
+		c, ok := v.(*ssa.Call)
+		return ok && isBuiltinCall(c, "len") && strip(c.Common().Args[0]) == strip(seq)
+	}
+	boundedByLen := func(v ssa.Value) bool {
+		for _, ref := range *v.Referrers() {
+			bo, ok := ref.(*ssa.BinOp)
+			if !ok {
+				continue
+			}
+			if !((bo.Op == token.LSS && bo.X == v && isLenOfSeq(bo.Y)) || (bo.Op == token.GTR && bo.Y == v && isLenOfSeq(bo.X))) {
+				continue
+			}
+			for _, r2 := range *bo.Referrers() {
+				if _, isIf := r2.(*ssa.If); isIf {
+					return true
+				}
+			}
+		}
+		return false
+	}
+	isPlusOne := func(v ssa.Value, of ssa.Value) bool {
+		bo, ok := v.(*ssa.BinOp)
+		if !ok || bo.Op != token.ADD || bo.X != of {
+			return false
+		}
+		one, ok := constInt(bo.Y)
+		return ok && one == 1
+	}
+	// range form
+	if bo, ok := idx.(*ssa.BinOp); ok && bo.Op == token.ADD {
+		if one, ok := constInt(bo.Y); ok && one == 1 {
+			if ph, ok := bo.X.(*ssa.Phi); ok && len(ph.Edges) >= 2 {
+				start, back, other := 0, 0, 0
+				for _, e := range ph.Edges {
+					if v, ok := constInt(e); ok && v == -1 {
+						start++
+					} else if e == idx {
+						back++
+					} else {
+						other++
+					}
+				}
+				return start == 1 && back >= 1 && other == 0 && boundedByLen(idx)
+			}
+		}
+	}
+	// classic form
+	if ph, ok := idx.(*ssa.Phi); ok && len(ph.Edges) >= 2 {
+		start, back, other := 0, 0, 0
+		for _, e := range ph.Edges {
+			if v, ok := constInt(e); ok && v == 0 {
+				start++
+			} else if isPlusOne(e, ph) {
+				back++
+			} else {
+				other++
+			}
+		}
+		return start == 1 && back >= 1 && other == 0 && boundedByLen(ph)
+	}
+	return false
+}
